@@ -423,7 +423,7 @@ PO8_AUDIT = {
         'the DP matrices are allocated with one row per observation (plus one for backward) and one column per state; the row is a loop index below that bound (or the last row, T >= 1) and the column is a State yielded by hmm.states(), which the Model contract keeps below num_states()',
     'stats::hmm::viterbi_matrices|index|index_mut(x0,array{x1,Deref>::deref(x2)})<ndarray::ArrayBase<ndarray::OwnedRepr<usize>, ndarray::Dim<[usize; 2]>>>':
         'the DP matrices are allocated with one row per observation (plus one for backward) and one column per state; the row is a loop index below that bound (or the last row, T >= 1) and the column is a State yielded by hmm.states(), which the Model contract keeps below num_states()',
-    'stats::hmm::viterbi_matrices|unwrap|unwrap(PartialOrd>::partial_cmp(Add>::add(arg2.1,Model::transition_prob_idx(arg1,arg2.0,x0,x1)),Add>::add(arg3.1,Model::transition_prob_idx(arg1,arg3.0,x0,x1))))<std::cmp::Ordering>':
+    'stats::hmm::viterbi_matrices|unwrap|unwrap(PartialOrd>::partial_cmp(Add>::add(x0.1,Model::transition_prob_idx(arg1,x0.0,x1,x2)),Add>::add(x3.1,Model::transition_prob_idx(arg1,x3.0,x1,x2))))<std::cmp::Ordering>':
         'LogProb values compared here are sums of ln-probabilities, never NaN (ln(0) = -inf is handled by C15/GD-8)',
     'stats::hmm::viterbi_traceback|unwrap|unwrap(Iterator::max_by_key(Iterator::enumerate(impl_methods>::iter(x0)),closure{}))<(usize, &stats::probs::LogProb)>':
         'maximum over the states of a model with S >= 1 states: the iterator is not empty',
@@ -443,11 +443,11 @@ PO8_AUDIT = {
         'the DP matrices are allocated with one row per observation (plus one for backward) and one column per state; the row is a loop index below that bound (or the last row, T >= 1) and the column is a State yielded by hmm.states(), which the Model contract keeps below num_states()',
     'stats::hmm::forward|overflow-sub|x0,1':
         'the closure runs inside the loop over rows 1..T: i >= 1',
-    'stats::hmm::forward|index|index(x0,array{Sub(x1,1).0,Deref>::deref(arg2)})<ndarray::ArrayBase<ndarray::OwnedRepr<stats::probs::LogProb>, ndarray::Dim<[usize; 2]>>>':
+    'stats::hmm::forward|index|index(x0,array{Sub(x1,1).0,Deref>::deref(x2)})<ndarray::ArrayBase<ndarray::OwnedRepr<stats::probs::LogProb>, ndarray::Dim<[usize; 2]>>>':
         'the DP matrices are allocated with one row per observation (plus one for backward) and one column per state; the row is a loop index below that bound (or the last row, T >= 1) and the column is a State yielded by hmm.states(), which the Model contract keeps below num_states()',
     'stats::hmm::forward|overflow-sub|slice::len(arg2),1':
         'observation sequences are non-empty (T >= 1, quantifier of C14)',
-    'stats::hmm::forward|index|index(x0,array{Sub(slice::len(arg2),1).0,Deref>::deref(arg2)})<ndarray::ArrayBase<ndarray::OwnedRepr<stats::probs::LogProb>, ndarray::Dim<[usize; 2]>>>':
+    'stats::hmm::forward|index|index(x0,array{Sub(slice::len(arg2),1).0,Deref>::deref(x1)})<ndarray::ArrayBase<ndarray::OwnedRepr<stats::probs::LogProb>, ndarray::Dim<[usize; 2]>>>':
         'the DP matrices are allocated with one row per observation (plus one for backward) and one column per state; the row is a loop index below that bound (or the last row, T >= 1) and the column is a State yielded by hmm.states(), which the Model contract keeps below num_states()',
     'stats::hmm::backward|index|index_mut(x0,array{0,Deref>::deref(x1)})<ndarray::ArrayBase<ndarray::OwnedRepr<stats::probs::LogProb>, ndarray::Dim<[usize; 2]>>>':
         'the DP matrices are allocated with one row per observation (plus one for backward) and one column per state; the row is a loop index below that bound (or the last row, T >= 1) and the column is a State yielded by hmm.states(), which the Model contract keeps below num_states()',
@@ -457,7 +457,7 @@ PO8_AUDIT = {
         'observation sequences are non-empty (T >= 1, quantifier of C14)',
     'stats::hmm::backward|overflow-add|1,x0':
         'row index + 1 <= number of rows',
-    'stats::hmm::backward|index|index(x0,array{x1,Deref>::deref(arg2)})<ndarray::ArrayBase<ndarray::OwnedRepr<stats::probs::LogProb>, ndarray::Dim<[usize; 2]>>>':
+    'stats::hmm::backward|index|index(x0,array{x1,Deref>::deref(x2)})<ndarray::ArrayBase<ndarray::OwnedRepr<stats::probs::LogProb>, ndarray::Dim<[usize; 2]>>>':
         'the DP matrices are allocated with one row per observation (plus one for backward) and one column per state; the row is a loop index below that bound (or the last row, T >= 1) and the column is a State yielded by hmm.states(), which the Model contract keeps below num_states()',
     'stats::hmm::backward|overflow-sub|slice::len(arg2),x0':
         'i ranges over 0..n: n - i >= 0',
